@@ -46,7 +46,13 @@ def plan(tier, seed):
         labels = sorted(set(lcorbit.orbit_table(6)))
         for i, ch in enumerate(wp.chunks(labels, 32)):
             t.append(("members6", ch, 25, seed * 100 + i))
+        for i in range(16):
+            t.append(("neigh", 6, 12, seed * 100 + i))
+        for i in range(4):
+            t.append(("neigh", 5, 12, seed * 100 + i))
     else:
+        for i in range(32):
+            t.append(("neigh", 6, 60, seed * 100 + i))
         sd = groups.group_tasks(6)
         # biggest subtrees first so the tail is short
         sd.sort(key=lambda vp: vp[1])
@@ -163,6 +169,34 @@ def work(task):
                     sequence_on_object(p, m["gens"], n, label)
         if labels and len(p.samples) < 1:
             p.sample({"n": n, "generators": ws.strings(m["gens"], n), "library id": cid, "oracle orbit label": label})
+    elif kind == "neigh":
+        # anchors followed immediately by their tableau neighbours (1-2 bits apart) and by all stabilizers that share
+        # all but the first / last generator: requests on which an answer computed for the anchor is most easily reused
+        _, n, cnt, seed = task
+        rnd = random.Random(seed)
+        labels = sorted(set(lcorbit.orbit_table(n)))
+        orb = lcorbit.orbit_members(n)
+        for k in range(cnt):
+            label = labels[rnd.randrange(len(labels))]
+            a = ws.member(label, n, rnd, orb[label], style=ws.STYLES[k % len(ws.STYLES)], mix=bool(k % 3 == 0))
+            sibs = ws.tableau_neighbours(a["gens"], n) + ws.generator_replacements(a["gens"], n, 0) + ws.generator_replacements(a["gens"], n, n - 1)
+            fmt = ("mat", "str")[k % 2]
+            cid = lib_id(a["gens"], n, fmt)
+            p.evals += 1
+            _note(p, n, cid, label, a["gens"])
+            for g in sibs:
+                lab = lcorbit.orbit_label(g, n)
+                cid = lib_id(g, n, fmt)
+                p.evals += 1
+                p.counters["n=%d tableau neighbours / generator siblings" % n] += 1
+                if lab:
+                    p.nontrivial((n, groups.canon_unsigned(g, n)))
+                _note(p, n, cid, lab, g)
+                if rnd.random() < 0.1:
+                    cid = lib_id(a["gens"], n, fmt)
+                    _note(p, n, cid, label, a["gens"])
+        if cnt and len(p.samples) < 1:
+            p.sample({"n": n, "anchor": ws.strings(a["gens"], n), "a neighbour": ws.strings(g, n), "neighbours and siblings": len(sibs)})
     elif kind == "classes":
         from htstabilizer import lc_classes
         n = task[1]
